@@ -35,7 +35,7 @@ def build(nl: dict, route: dict | None = None):
     kind = route['kind']
     if kind == 'bench':
         c = Circuit.from_bench_string(bench_text(nl, route.get('keys')))
-        return c
+        return _finish(c, nl, route)
     c = Circuit()
     for lab, typ, ops in nl['gates']:
         if kind == 'add_gate':
@@ -52,4 +52,45 @@ def build(nl: dict, route: dict | None = None):
             tmp = f'__tmp_move_{i}__'
             c.rename_gate(lab, tmp)
             c.rename_gate(tmp, lab)
+    return _finish(c, nl, route)
+
+
+def _finish(c, nl: dict, route: dict):
+    """Optional last steps of a construction route. `scratch`: some helper gates (reading an existing gate twice, or
+    reading each other) are added and removed again, so the circuit has a past without differing from the netlist.
+    `obtain`: the circuit handed to the code under test is a copy.copy / copy.deepcopy / pickle round trip of the one
+    built (the library deep-copies circuits itself; workers return pickled ones). If copying itself fails the original
+    object is used: supporting copy protocols is not what the properties are about."""
+    k = int(route.get('scratch') or 0)
+    labs = [g[0] for g in nl['gates']]
+    if k and labs:
+        seed = int(route.get('scratch_seed') or 0)
+        added = []
+        for i in range(k):
+            a = labs[(seed + 3 * i) % len(labs)]
+            b = labs[(seed + 5 * i + 1) % len(labs)]
+            lab = f'__scratch_{i}__'
+            if i % 3 == 0:
+                c.emplace_gate(lab, gate_type('XOR'), (a, a))
+            elif i % 3 == 1:
+                c.emplace_gate(lab, gate_type('AND'), (a, b, a))
+            else:
+                c.emplace_gate(lab, gate_type('OR'), (added[-1], a, added[-1]))
+            added.append(lab)
+        for lab in reversed(added):
+            c.remove_gate(lab)
+    how = route.get('obtain')
+    if how:
+        import copy
+        import pickle
+
+        try:
+            if how == 'copy':
+                c = copy.copy(c)
+            elif how == 'deepcopy':
+                c = copy.deepcopy(c)
+            elif how == 'pickle':
+                c = pickle.loads(pickle.dumps(c))
+        except Exception:  # noqa
+            pass
     return c
